@@ -30,6 +30,12 @@ theorem traversal_complete (t : Table) (mem : Mem) (hs : t.size = t.root.marked)
   simp only [Table.abs, ← entriesP_map_snd, List.map_map]
   rfl
 
+/-- the same from the invariant (`Good` contains `size = number of marked nodes`) -/
+theorem traversal_complete_of_inv (t : Table) (mem : Mem) (hi : t.Inv cmp) :
+    (t.iterRun cmp (iterInit t) (List.replicate (t.size + 1) .next) mem).1 =
+      t.abs.items.map (fun e => ({ st := .ok, key := some e.1, val := some e.2 } : IOut)) ++ [{ st := .iterEnd }] :=
+  (traversal_complete t mem hi.1).1
+
 /-- the yielded pairs are a permutation of the ideal map's pairs, with pairwise distinct keys -/
 theorem traversal_is_permutation_partial (hc : CmpLaw cmp) (t : Table) (s : StrMap) (hg : t.Good cmp)
     (hr : C11.Rel t s) : t.abs.items.Perm s.items ∧ (t.abs.items.map (·.1)).Nodup :=
